@@ -308,14 +308,39 @@ pub fn dupmode(tier: Tier, w: &Arc<World>) -> Scn {
     let xc_bad_oack = xc.bad_oack_ack;
     let desc = format!("N={n} {} {} len={len} opts={:?} eager_reack={} per_block={} bad_oack_ack={:?}", srv.describe(), if upload { "upload" } else { "download" }, oc.opts, xc.eager_reack, xc.per_block_ack, xc_bad_oack);
     let kind = if upload { Kind::Upload } else { Kind::Download };
+    // the same socket may come back for a second transfer of the same shape (same length, another name
+    // for an upload; the same file for a download): nothing of the first one may linger in the server
+    let again = !wrap_run && xc_bad_oack.is_none() && d.chance("swarm.c16.second_transfer", 1, 5);
+    if again {
+        // the socket stays open between the two transfers; the network faults belong to the first one
+        xc.close_when_done = false;
+        w.lock().cfg.until_ns = Some(3000 * SEC);
+    }
+    let mut xc2 = xc.clone();
     let (peer, client) = if upload { w.add_peer(Box::new(Writer::new(xc, data.to_vec())), false, 0) } else { w.add_peer(Box::new(Reader::new(xc)), false, 0) };
     // the peer's timer is three server timeouts long: one reordering can cost three failed receives
     let conformant = xc_bad_oack.is_none();
-    let spec = XferSpec { client, peer, kind, content: data, path, conformant, dally: true, timeout_ratio: 3 };
+    let mut specs = vec![XferSpec { client, peer, kind, content: data.clone(), path: path.clone(), conformant, dally: true, timeout_ratio: 3 }];
+    let mut second = None;
+    if again {
+        let data2 = Arc::new(content(len, 10));
+        let path2 = if upload { dir.join("data2.bin") } else { path.clone() };
+        if upload {
+            xc2.file = "data2.bin".into();
+        }
+        let content2 = if upload { data2.clone() } else { data.clone() };
+        let (p2, c2) = if upload { w.add_peer_on(Box::new(Writer::new(xc2, data2.to_vec())), peer) } else { w.add_peer_on(Box::new(Reader::new(xc2)), peer) };
+        specs.push(XferSpec { client: c2, peer: p2, kind, content: content2, path: path2, conformant, dally: true, timeout_ratio: 3 });
+        second = Some(p2);
+    }
+    let desc = format!("{desc} second_transfer_from_same_socket={again}");
     w.add_monitor(Box::new(DupMon::new(n)));
-    w.add_monitor(Box::new(XferMon::new("C16", Rules { c01: true, c02: true, c04: true, c08: true, ..Default::default() }, vec![spec], n)));
+    w.add_monitor(Box::new(XferMon::new("C16", Rules { c01: true, c02: true, c04: true, c08: true, ..Default::default() }, specs, n)));
     boot_server(w, &srv).expect("server config");
     w.start_peer_at(peer, 10 * MS);
+    if let Some(p2) = second {
+        w.start_peer_at(p2, 4000 * SEC);
+    }
     Scn { sandbox, desc, step_cap: if wrap_run { 12_000_000 } else { 3_000_000 }, time_cap: 100_000_000 * SEC, faultfree }
 }
 
@@ -488,6 +513,15 @@ pub fn cleanup(tier: Tier, w: &Arc<World>) -> Scn {
             xa.script.push((step, if d.chance("swarm.c13.a_errors", 1, 3) { Adv::Error(0, true) } else { Adv::Silent }));
             let mut xb = mk("up.bin", &oc);
             xb.resend_request = false;
+            let b_is_refused = d.chance("swarm.c13.second_request_unhonourable", 1, 4);
+            if b_is_refused {
+                // the second request cannot be honoured (it is not accepted, no worker starts): the first
+                // upload's failure is then an ordinary failed upload
+                let (k, v) = d.pick("swarm.c13.bad_option", &[("blksize", "4"), ("windowsize", "0"), ("timeout", "0"), ("blksize", "70000")]);
+                xb.opts.retain(|(n, _)| !n.eq_ignore_ascii_case(k));
+                xb.opts.push((k.to_string(), v.to_string()));
+                xb.retries = 1;
+            }
             let data_b = Arc::new(content(len / 2 + 7, 32));
             let (pa, ca) = w.add_peer(Box::new(Writer::new(xa, data.to_vec())), false, 0);
             let (pb, cb) = w.add_peer(Box::new(Writer::new(xb, data_b.to_vec())), false, 0);
